@@ -98,7 +98,7 @@ func (r *Run) callStatic(fr *Frame, st *State, instr ssa.Instruction, fn *ssa.Fu
 		}
 		r.note("inlined", "%s", name)
 		r.siteChecks(fr, st, instr, r.contractFor(fr.fn), name, site, argVars(args), false)
-		outs := r.execFunc(fn, st, args, bind, fr.depth+1, false)
+		outs := r.execFunc(fn, st, args, bind, fr.depth+1, false, fr)
 		var res []Outcome
 		for _, o := range outs {
 			res = append(res, Outcome{st: o.st, rets: resultVal(fn.Signature, o.rets)})
@@ -332,8 +332,21 @@ func (r *Run) siteChecks(fr *Frame, st *State, instr ssa.Instruction, callerCt *
 			}
 		}
 	}
+	// A call inside a helper that has no contract of its own (verified inlined) answers to the clauses of the function under
+	// verification: moving a call into a helper must neither lose the clause nor raise an alarm.
+	inHelper := false
+	owner := fnName(fr.fn)
 	if callerCt == nil {
-		return
+		if fr.fn == r.fn || r.ct == nil {
+			return
+		}
+		callerCt, inHelper, owner = r.ct, true, r.name
+	}
+	nSpecs := 0
+	for _, ss := range callerCt.Sites {
+		if ss.IsSend == isSend && ss.Callee == name {
+			nSpecs++
+		}
 	}
 	for _, ss := range callerCt.Sites {
 		if ss.IsSend != isSend || ss.Callee != name {
@@ -343,7 +356,12 @@ func (r *Run) siteChecks(fr *Frame, st *State, instr ssa.Instruction, callerCt *
 		if i := strings.LastIndex(site, "#"); i >= 0 {
 			fmt.Sscanf(site[i+1:], "%d", &ord)
 		}
-		if ss.Ordinal >= 0 && ss.Ordinal != ord {
+		if inHelper {
+			// positions inside a helper do not count: the clause applies if it is the only one for this callee (or says "every site")
+			if ss.Ordinal >= 0 && nSpecs != 1 {
+				continue
+			}
+		} else if ss.Ordinal >= 0 && ss.Ordinal != ord {
 			continue
 		}
 		if ss.ValueOf != "" && !strings.HasSuffix(site, "@"+ss.ValueOf) {
@@ -361,16 +379,27 @@ func (r *Run) siteChecks(fr *Frame, st *State, instr ssa.Instruction, callerCt *
 				se.vars[k] = v
 			}
 		}
+		// the obligation is named by the callee; the position is part of the name only where the contract distinguishes positions
+		oname := site
+		if !isSend {
+			oname = name
+			if nSpecs > 1 && ss.Ordinal >= 0 {
+				oname = fmt.Sprintf("%s#%d", name, ss.Ordinal)
+			}
+			if fr.fn != r.fn && !inHelper {
+				oname = fnName(fr.fn) + ":" + oname
+			}
+		}
 		for _, cl := range ss.Requires {
 			g := r.evalBool(se, cl.Expr)
 			kind := "site:"
 			if isSend {
 				kind = "send:"
 			}
-			r.emit(st, kind+site+"/"+cl.Label, "callsite", propsOr(cl.Props, ctProps(callerCt)), g)
+			r.emit(st, kind+oname+"/"+cl.Label, "callsite", propsOr(cl.Props, ctProps(callerCt)), g)
 			st.assume(g)
 		}
-		r.sitesHit[fnName(fr.fn)+"|"+ss.Callee+"|"+fmt.Sprint(ss.Ordinal)+ss.ValueOf+"|"+fmt.Sprint(isSend)] = true
+		r.sitesHit[owner+"|"+ss.Callee+"|"+fmt.Sprint(ss.Ordinal)+ss.ValueOf+"|"+fmt.Sprint(isSend)] = true
 	}
 }
 
